@@ -10,7 +10,6 @@ import (
 	"fmt"
 	"io"
 	"net"
-	"sync/atomic"
 	"net/http"
 	"os"
 	"path/filepath"
@@ -18,6 +17,7 @@ import (
 	"strconv"
 	"strings"
 	"sync"
+	"sync/atomic"
 	"time"
 
 	"github.com/glowlabs-org/gca-backend/glow"
@@ -191,6 +191,19 @@ func runArchiveScenario(seed uint64, size int, t *Trace) error {
 		e.S.VerifInject(MkReport(dv.id, now-uint32(r.Intn(int(min(int(now), 300))+1)), 2+uint64(r.Intn(900)), dv.key.Priv).Serialize())
 	}
 	glow.SetCurrentTimeslot(400)
+	if r.Chance(15) {
+		// the directory of a server that was killed while its registration was being written: the key file is there
+		// and empty. An archive is asked for in that state, before the registration is made again
+		if e.Stop() == nil {
+			os.WriteFile(filepath.Join(e.Dir, "gcaPubKey.dat"), nil, 0644)
+			if err := e.Start(); err != nil {
+				return err
+			}
+			time.Sleep(70 * time.Millisecond)
+			e.Get("/api/v1/archive")
+			t.Count("archive.asked-for-with-an-empty-key-file")
+		}
+	}
 	if r.Chance(70) {
 		register()
 		for i := 0; i < r.Intn(4); i++ {
@@ -277,11 +290,37 @@ func runArchiveScenario(seed uint64, size int, t *Trace) error {
 		if r.Chance(20) {
 			faultDevice()
 		}
+		// one of the public files cannot be opened when its turn comes and is back, with more in it, when the
+		// next file's turn comes. No archive is the honest answer; an archive, if there is one, is judged as any other
+		hidden := ""
+		if registered && r.Chance(18) {
+			k := r.Intn(len(server.PublicFiles) - 1)
+			if r.Chance(50) {
+				k = 1 // the reports, which come before the authorizations they depend on
+			}
+			f, next := server.PublicFiles[k], files[k+1]
+			if st, err := os.Stat(filepath.Join(e.Dir, f)); err == nil && st.Mode().IsRegular() {
+				hidden = filepath.Join(e.Dir, f)
+				server.VerifSetPoint("archive-before:"+f, func() { os.Rename(hidden, hidden+".hidden") })
+				last := server.PublicFiles[len(server.PublicFiles)-1]
+				if next != last {
+					server.VerifSetPoint("archive-before:"+next, func() { os.Rename(hidden+".hidden", hidden) })
+					server.VerifSetPoint("archive-before:"+last, func() { newDevice(); report() })
+				} else {
+					server.VerifSetPoint("archive-before:"+next, func() { os.Rename(hidden+".hidden", hidden); newDevice(); report() })
+				}
+				where = append(where, "hidden@"+f)
+				t.Count("archive.file-hidden-at-its-turn")
+			}
+		}
 		time.Sleep(70 * time.Millisecond) // let the rate window pass
 		regAtStart := registered
 		st, body, err := e.Get("/api/v1/archive")
 		for _, f := range files {
 			server.VerifSetPoint("archive-before:"+f, nil)
+		}
+		if hidden != "" {
+			os.Rename(hidden+".hidden", hidden)
 		}
 		obs := ""
 		switch {
@@ -291,6 +330,9 @@ func runArchiveScenario(seed uint64, size int, t *Trace) error {
 			// no GCA key file yet: the server produces no archive at all (nothing to judge)
 			obs = "ok"
 			t.Count("archive.unavailable")
+		case st != 200 && hidden != "":
+			obs = "ok"
+			t.Count("archive.refused-under-fault")
 		case st != 200:
 			obs = fmt.Sprintf("VIOLATION:status %d", st)
 		default:
@@ -398,6 +440,18 @@ func runArchiveScenario(seed uint64, size int, t *Trace) error {
 		}
 		wg.Wait()
 	}
+	// a crowd: many requests at the same instant, twice (whichever of them takes the limiter's mutex first, no more
+	// than the limit get past it within a window)
+	for rep := 0; rep < 4; rep++ {
+		time.Sleep(rate + 10*time.Millisecond)
+		var wg sync.WaitGroup
+		for k := 0; k < 64; k++ {
+			wg.Add(1)
+			go func() { defer wg.Done(); get() }()
+		}
+		wg.Wait()
+	}
+	t.Count("archive.crowd")
 	// a phase in which building the archive fails (a public file is missing): the requests still went through
 	// the limiter, so no more than the limit of them may get past it within a window, whatever their outcome
 	pub := filepath.Join(e.Dir, "gcaTempPubKey.dat")
